@@ -873,6 +873,31 @@ static void exec_copy(Ctx &c, const Op &op)
     std::string what;
     if (!D.canary_ok(what) || !S.canary_ok(what))
         c.violation("stray-write", {"C17", "C18"}, op, "nothing outside the size elements is written", what);
+    // C12: bit-identical to the one-member execution of the same call (same dirty destination)
+    {
+        HBuf D1(op.size, "dst(one-member)");
+        D1.fill_garbage(derive_seed(op.garbage_seed, 11) | 1);
+        for (uint64_t i = 0; i < op.size; i++)
+            if (D1.p()[i] == (zero ? 0 : in[i]))
+                D1.p()[i] ^= 0x5555;
+        sim::IcvState icv1 = sim::icv_save();
+        sim::OpStats rst = simulate(ref_cfg(), [&] {
+            if (zero)
+                shim::parsetzero(D1.p(), op.size, op.threads);
+            else
+                shim::parcpy(D1.p(), S.p(), op.size, op.threads);
+        });
+        sim::icv_restore(icv1);
+        r.ref_steps += rst.steps + rst.serial_steps;
+        account_memory(c, op, rst, "one-member reference run");
+        long db = first_diff_bits(out, D1.vec());
+        if (db >= 0)
+        {
+            char buf[200];
+            snprintf(buf, sizeof buf, "dst[%ld]: simulated team %llu vs one-member execution %llu (size %llu, threads %d)", db, (unsigned long long)out[db], (unsigned long long)D1.p()[db], (unsigned long long)op.size, op.threads);
+            c.violation("single-member-mismatch", {"C12"}, op, "bit-identical to the one-member execution", buf);
+        }
+    }
 }
 
 // ---------------------------------------------------------------------------------------------
